@@ -506,7 +506,7 @@ def rule_valueobj(prog: Program, classes: Optional[List[str]] = None) -> List[In
                         for x_ in ast.walk(t_):
                             if isinstance(x_, ast.Attribute) and isinstance(x_.value, ast.Name) and x_.value.id == me_ and isinstance(x_.ctx, ast.Store):
                                 lazy.setdefault(x_.attr, f"{c_.name}.{mname_}")
-        for dn_ in ("__eq__", "__hash__", "__dask_tokenize__"):
+        for dn_ in ("__eq__", "__hash__", "__dask_tokenize__", "__getstate__", "__reduce__"):
             mm_ = _own_or_inherited(ci, dn_)
             if mm_ is None:
                 continue
